@@ -604,13 +604,18 @@ fn par_run(prop: Prop, apps: &[App], lit_core: &BTreeSet<RV>, thorough: bool, on
 fn input_shapes(prop: Prop, acc: &mut Acc) {
     let shapes: Vec<(&str, Value)> = vec![
         ("map", Value::Map([("a".to_string(), Value::Int(1))].into_iter().collect())),
+        ("map-of-map", Value::Map([("a".to_string(), Value::Map([("b".to_string(), Value::None)].into_iter().collect()))].into_iter().collect())),
         ("empty-map", Value::Map(BTreeMap::new())),
         ("int", Value::Int(5)),
         ("none", Value::None),
         ("list", Value::Vec(vec![Value::Int(1)])),
         ("string", Value::String("a".into())),
     ];
-    let exprs = ["a", "zz", "facts", "facts.a", "a + a", "is_none(a)", "facts.0", ":a", "f(a)", "[a, zz]", "{k: a}", "if a then a else zz", "a.a.a"];
+    let exprs = [
+        "a", "zz", "facts", "facts.a", "a + a", "is_none(a)", "facts.0", ":a", "f(a)", "[a, zz]", "{k: a}", "if a then a else zz", "a.a.a",
+        // a None arising from a missing field / index, reached through the `facts` keyword and through a field
+        "facts.zz", "facts.zz + i1", "facts.zz > i1", "int(facts.zz)", "facts.zz.x.0", "facts.zz == facts.zz", "facts.zz contains i1", "[i1] contains facts.zz", "a.zz", "a.zz + i1", "facts.a.zz", "-facts.zz", "!facts.zz", "uppercase(facts.zz)", "facts.zz and true", "if facts.zz then i1 else i2",
+    ];
     for (sname, facts) in &shapes {
         let rf = RV::from_value(facts);
         for text in exprs {
@@ -630,7 +635,7 @@ fn input_shapes(prop: Prop, acc: &mut Acc) {
             acc.outcome(format!("shape:{}:{}", sname, obs.class()));
             let bad = match prop {
                 Prop::C01 => matches!(obs, Obs::Panic(_)),
-                Prop::C02 => conforms(&exp, &obs) == Some(false),
+                Prop::C02 | Prop::C04 => conforms(&exp, &obs) == Some(false),
                 _ => false,
             };
             if bad {
